@@ -23,6 +23,8 @@ def tasks(tier):
     o = dict(nra=True, timeout_ms=60000)
     for sv in steps.SOLVERS:
         t.append(dict(module="steps", fn="h_faults", shape=dict(vars=["boxed"], cons=["eq0"], solver=sv), opts=o))
+        # with condition-number reporting: a failure of the first condition-estimate solve
+        t.append(dict(module="steps", fn="h_faults", shape=dict(vars=["boxed"], cons=["eq0"], solver=sv, report_rcond=True), opts=o))
         if not q:
             t.append(dict(module="steps", fn="h_faults", shape=dict(vars=["boxed", "free"], cons=[], solver=sv, newton="Full"), opts=o))
     t += loop.loop_tasks([dict(policy="DualNorm", cons=["eq0"], start_faults=True), dict(policy="Constant", cons=[], start_faults=True)], 1 if q else 2)
